@@ -33,7 +33,15 @@ type verifNs struct {
 
 // verifNsArbitrary builds an arbitrary well-formed namespace over the universe: every path is absent, a
 // file or a directory, and present only under a directory. File i carries the content byte '0'+i.
-func verifNsArbitrary() (*verifNs, map[string]string) {
+func verifNsArbitrary() (*verifNs, map[string]string) { return verifNsArbitraryE(false) }
+
+// verifNsArbitraryE: with allowEmpty, at most one of the files (an arbitrary one) is an empty file: no
+// content, no chunks, size 0 - the shape a freshly created or truncated file has.
+func verifNsArbitraryE(allowEmpty bool) (*verifNs, map[string]string) {
+	emptyIdx := -1
+	if allowEmpty {
+		emptyIdx = rt.Choice("empty-file", len(verifNsPaths)+1) - 1
+	}
 	ns := &verifNs{store: filer.VhNewMemStore(), ctx: context.Background()}
 	ns.f = filer.VhNewFiler(ns.store)
 	ns.fs = &FilerServer{filer: ns.f}
@@ -45,6 +53,11 @@ func verifNsArbitrary() (*verifNs, map[string]string) {
 		}
 		switch rt.Choice("kind", 3) {
 		case 1:
+			if i == emptyIdx {
+				model[p] = "file:::"
+				ns.store.InsertEntry(ns.ctx, &filer.Entry{FullPath: util.FullPath(p), Attr: filer.Attr{Mode: 0644}})
+				break
+			}
 			model[p] = "file:" + string(rune('0'+i)) + "::"
 			ns.store.InsertEntry(ns.ctx, &filer.Entry{FullPath: util.FullPath(p), Attr: filer.Attr{Mode: 0644}, Content: []byte{byte('0' + i)}})
 		case 2:
@@ -91,7 +104,7 @@ func verifUnder(p, dir string) bool { return p == dir || strings.HasPrefix(p, di
 
 // C18 (create): CreateEntry from any well-formed namespace.
 func VerifC18_Create() {
-	ns, model := verifNsArbitrary()
+	ns, model := verifNsArbitraryE(true)
 	path := []string{"/a", "/a/b", "/a/b/c", "/a/d", "/e", "/e/f", "/a/b/c/g", "/x/y"}[rt.Choice("path", 8)]
 	isDir := rt.Bool("isdir")
 	oExcl := rt.Bool("oexcl")
